@@ -197,6 +197,81 @@ fn ndisc_options_ok(f: &[u8]) -> Option<bool> {
     Some(true)
 }
 
+/// (C10) A one-frame UDP datagram over 802.15.4, read with a decoder of its own: MAC header, LOWPAN_IPHC (length from the
+/// mode bits), LOWPAN_NHC UDP (ports and checksum from its own mode bits), payload -- the pieces must tile the frame exactly.
+/// None: not such a frame (a fragment, another next header).
+fn udp_frame_tiles(f: &[u8], payload_len: usize) -> Option<bool> {
+    if f.len() < 3 {
+        return None;
+    }
+    let fc = u16::from_le_bytes([f[0], f[1]]);
+    let dam = (fc >> 10) & 3;
+    let sam = (fc >> 14) & 3;
+    let pidc = (fc >> 6) & 1;
+    let mut l = 3;
+    if dam != 0 {
+        l += 2 + if dam == 2 { 2 } else { 8 };
+    }
+    if sam != 0 {
+        l += (if pidc == 0 { 2 } else { 0 }) + if sam == 2 { 2 } else { 8 };
+    }
+    if f.len() < l + 2 || f[l] >> 5 != 0b011 {
+        return None;
+    }
+    let (b0, b1) = (f[l], f[l + 1]);
+    let mut h = l + 2;
+    if b1 & 0x80 != 0 {
+        h += 1;
+    }
+    h += match (b0 >> 3) & 3 {
+        0 => 4,
+        1 => 3,
+        2 => 1,
+        _ => 0,
+    };
+    if b0 & 0x04 == 0 {
+        // next header carried inline (no LOWPAN_NHC): not read here
+        return None;
+    }
+    if b0 & 3 == 0 {
+        h += 1;
+    }
+    let sac = b1 & 0x40 != 0;
+    h += match ((b1 >> 4) & 3, sac) {
+        (0, false) => 16,
+        (0, true) => 0,
+        (1, _) => 8,
+        (2, _) => 2,
+        _ => 0,
+    };
+    let m = b1 & 0x08 != 0;
+    let dac = b1 & 0x04 != 0;
+    h += match (m, dac, b1 & 3) {
+        (false, false, 0) => 16,
+        (false, _, 1) => 8,
+        (false, _, 2) => 2,
+        (false, _, 3) => 0,
+        (false, true, 0) => 0,
+        (true, false, 0) => 16,
+        (true, false, 1) => 6,
+        (true, false, 2) => 4,
+        (true, false, 3) => 1,
+        (true, true, 0) => 6,
+        _ => return Some(false),
+    };
+    if f.len() <= h {
+        return Some(false);
+    }
+    let d = f[h];
+    if d & 0xf8 != 0xf0 {
+        // the IPHC header announces a compressed next header and what follows is no LOWPAN_NHC UDP dispatch
+        return if d & 0xf0 == 0xe0 { None } else { Some(false) };
+    }
+    let ports = [4usize, 3, 3, 1][(d & 3) as usize];
+    let ck = if d & 4 == 0 { 2 } else { 0 };
+    Some(h + 1 + ports + ck + payload_len == f.len())
+}
+
 pub fn replay(args: &Args) {
     let scn = read_ndjson(&args.str("sched", ""));
     let mut t = Trace::create(&args.str("out", ""));
@@ -264,6 +339,31 @@ pub fn replay(args: &Args) {
                 }
             }
             while b.sockets.get_mut::<udp::Socket>(b.udp).recv().is_ok() {}
+        }
+        // (C10) a small datagram to a multicast group -- link scope and wider scopes, group identifiers that fit one octet
+        // and ones that do not -- needs no neighbour; the frame it leaves in must tile
+        let mut mc_seen = 0usize;
+        let mut mc_bad = 0usize;
+        if failed.is_none() {
+            let g: [u16; 8] = [[0xff05, 0, 0, 0, 0, 0, 0, 2], [0xff01, 0, 0, 0, 0, 0, 0, 1], [0xff0e, 0, 0, 0, 0, 0, 0, 0xfb], [0xff02, 0, 0, 0, 0, 0, 1, 3],
+                               [0xff02, 0, 0, 0, 0, 0, 0, 1], [0xff05, 0, 0, 0, 0, 0, 1, 3], [0xff12, 0, 0, 0, 0, 0, 0, 0x42], [0xff08, 0, 0, 0, 0, 0x12, 0x3456, 0x789a]][k % 8];
+            let ga = Ipv6Address::new(g[0], g[1], g[2], g[3], g[4], g[5], g[6], g[7]);
+            let pl = b"to-the-group";
+            let _ = a.sockets.get_mut::<udp::Socket>(a.udp).send_slice(pl, IpEndpoint::new(IpAddress::Ipv6(ga), dport));
+            now += 5;
+            match poll(&mut a, now, vec![]) {
+                Ok(o) => {
+                    for f in &o {
+                        maxframe = maxframe.max(f.len());
+                        if let Some(ok) = udp_frame_tiles(f, pl.len()) {
+                            mc_seen += 1;
+                            mc_bad += if ok { 0 } else { 1 };
+                        }
+                    }
+                    // (B is not a member: the frames end here)
+                }
+                Err(m) => failed = Some(m),
+            }
         }
         let mut accepted = 0usize;
         let mut got: Vec<Value> = vec![];
@@ -407,7 +507,7 @@ pub fn replay(args: &Args) {
         }
         // for ICMP the reply's source is B; for UDP/TCP the datagram's source is A
         let src = if upper == "icmp" { b.addr.to_string() } else { a.addr.to_string() };
-        t.ev(json!({"ev":"scn","k":k,"s":s,"sport":sport,"dport":dport,"src":src,"accepted":accepted,"got":got,"maxframe":maxframe,"nfrag_first":nfrag_first,"nd_seen":nd_seen,"nd_bad":nd_bad}));
+        t.ev(json!({"ev":"scn","k":k,"s":s,"sport":sport,"dport":dport,"src":src,"accepted":accepted,"got":got,"maxframe":maxframe,"nfrag_first":nfrag_first,"nd_seen":nd_seen,"nd_bad":nd_bad,"mc_seen":mc_seen,"mc_bad":mc_bad}));
     }
     println!("{}", json!({"runs": 1, "events": t.finish()}));
 }
